@@ -13,9 +13,9 @@ static void fam_types()
 		{ 0x1F, "revoker", 2 }, { 0x1F, "self", 2 }, { 0x20, "revocation", 2 },
 	};
 	std::vector<int> hashes;
-	hashes.push_back(8), hashes.push_back(10);
+	hashes.push_back(8);
 	if (TH)
-		hashes.push_back(9), hashes.push_back(12), hashes.push_back(14), hashes.push_back(2);
+		hashes.push_back(10), hashes.push_back(9), hashes.push_back(12), hashes.push_back(14), hashes.push_back(2);
 	for (size_t si = 0; si < SG.size(); si++)
 		for (size_t hi = 0; hi < hashes.size(); hi++)
 			for (size_t ti = 0; ti < sizeof(specs) / sizeof(specs[0]); ti++)
